@@ -206,6 +206,7 @@ func common(sc *Scenario, p params) {
 	if p.has("adaptive") {
 		sc.Static = 0
 	}
+	sc.Handshake = p.dur("H", 0)
 	if p.has("ka") {
 		// ka=<ping>,<pong> on both sides; the server pings first like
 		// the mailbox configuration.
@@ -582,6 +583,10 @@ func init() {
 		sc.Monitors = append(sc.Monitors, monPrefix, monQuiet)
 		sc.Final = append(sc.Final, finalAllDelivered, finalNoHang, finalQuiet)
 		sc.IdleAfter = 24 * time.Second
+		if p.has("ka") {
+			// (idle keepalive traffic makes long idle periods costly)
+			sc.IdleAfter = 12 * time.Second
+		}
 		sc.Cfg.Horizon = 150 * time.Second
 		sc.Cfg.DrainTime = 10 * time.Second
 		return sc
